@@ -39,6 +39,7 @@ def cases(seed, tier):
     q = tier == "quick"
     out = [{"fam": "series", "seed": [seed, 10, i], "nseq": 2} for i in range(64 if q else 700)]
     out += [{"fam": "furrow", "seed": [seed, 10, 10 ** 5 + i], "nseq": 1} for i in range(2 if q else 30)]
+    out += [{"fam": "static-ids", "seed": [seed, 10, 2 * 10 ** 5 + i], "nseq": 2} for i in range(8 if q else 80)]
     return out
 
 
@@ -56,6 +57,18 @@ def make_solver(case_fam, gseed):
             fr[t] = frames.Frame(t, lat.vertices, lat.edges, lat.cells, time=float(t), gt=True)
         return fs.ForSys(fr, cm=False), 3
     rng = np.random.default_rng(gseed)
+    if case_fam == "static-ids":
+        # unrelated static tissues under keys 0..n-1 whose frame ids are a permutation of the keys: results are stored by KEY
+        from fv.gen import realise
+        from forsys import frames
+        nfr = int(rng.integers(2, 4))
+        ids = [int(x) for x in rng.permutation(nfr)]
+        fr = {}
+        for t in range(nfr):
+            a_ = scen.base_tissue(rng, "arc", ncells=int(rng.integers(8, 20)))
+            r_ = realise.realise(a_, k=int(rng.integers(2, 5)), rng=rng, relabel=True)
+            fr[t] = frames.Frame(ids[t], r_.vertices, r_.edges, r_.cells, time=float(t))
+        return fs.ForSys(fr, cm=False), nfr
     at0 = scen.base_tissue(rng, "arc", ncells=int(rng.integers(10, 36)))
     if len(at0.cells) > 25:
         from fv.gen import tissue
@@ -208,7 +221,7 @@ def structure_check(mon, solver, t, last_solve_fm):
                     break
 
 
-def random_ops(rng, nfr, n_internal):
+def random_ops(rng, nfr, n_internal, static_only=False):
     ops = []
     built = set()
     pbuilt = set()
@@ -226,7 +239,7 @@ def random_ops(rng, nfr, n_internal):
             built.add(t)
         elif r < 0.58:
             method = [None, None, None, "lsq", "lsq_linear", "fix_stress"][int(rng.integers(6))]
-            op = {"op": "S", "t": t, "method": method, "vel": bool(rng.random() < 0.4), "adim": bool(rng.integers(2)),
+            op = {"op": "S", "t": t, "method": method, "vel": bool(rng.random() < 0.4) and not static_only, "adim": bool(rng.integers(2)),
                   "neg": bool(rng.integers(2)), "ic": None}
             if method == "lsq" and rng.random() < 0.5:
                 op["ic"] = [float(x) for x in rng.uniform(0.5, 1.5, n_internal[t])]
@@ -240,6 +253,8 @@ def random_ops(rng, nfr, n_internal):
             else:
                 ops.append({"op": "PB", "t": t})
                 pbuilt.add(t)
+        elif static_only:
+            continue
         else:
             iv = sorted(int(x) for x in rng.choice(nfr, size=int(rng.integers(1, nfr + 1)), replace=False))
             ops.append({"op": "V", "interval": iv, "lim": [np.inf, float(rng.uniform(0.7 * np.pi, np.pi))][int(rng.integers(2))]})
@@ -288,7 +303,7 @@ def run_case(case):
         with env.Capture() as cap:
             solver, nfr = make_solver(case["fam"], gseed)
             n_internal = {t: len(solver.frames[t].internal_big_edges) for t in range(nfr)}
-            ops = random_ops(rng, nfr, n_internal)
+            ops = random_ops(rng, nfr, n_internal, static_only=(case["fam"] == "static-ids"))
             log = []
             last_fm = {}
             compared = 0
